@@ -136,9 +136,8 @@ func (r *Record) Start() int {
 
 // Bin returns the BAM index bin of the record.
 func (r *Record) Bin() int {
-	if r.Flags&(Unmapped|MateUnmapped) == Unmapped|MateUnmapped {
-		return 4680 // reg2bin(-1, 0)
-	}
+	// Unmapped reads are treated as being one base long, so an
+	// unplaced read (Pos -1) gets reg2bin(-1, 0) = 4680.
 	return int(internal.BinFor(r.Pos, r.End()))
 }
 
